@@ -777,7 +777,9 @@ def check_cfg_linearity(
             live = live_before[succ]
             for x, use_bb in live.items():
                 use_scope = scopes[use_bb]
-                place = use_scope[x]
+                # Look up the place as it is when the using BB is entered. Inside that BB
+                # the name might be rebound to a value of a different (copyable) type
+                place = (use_scope.parent_scope or use_scope)[x]
                 if not place.ty.copyable and (prev_use := scope.used(x)):
                     use = use_scope.used_parent[x]
                     # Special case if this is a use arising from the implicit returning
@@ -812,6 +814,12 @@ def check_cfg_linearity(
                 # might be the case that x is actually not live when considering
                 # the second, more fine-grained, analysis based on places.
                 if x not in live_before_bb and x not in scope.vars:
+                    continue
+                # If the place was rebound in this BB, then `scope` tracks the new value.
+                # The value coming in from outside (possibly of another type) is either
+                # used before the rebinding or not live here, which is checked in the
+                # BBs it comes from
+                if x in scope.vars and scope.vars[x] != leaf:
                     continue
                 used_later = all(x in live_before[succ] for succ in bb.successors)
                 if not leaf.ty.droppable and not scope.used(x) and not used_later:
